@@ -387,6 +387,33 @@ def h5_cases():
            lambda tr: None if tr == ["a.setMinimumSize({width=3,height=4})"] else "expected a.setMinimumSize({width=3,height=4})")
 
 
+FACILITIES = [
+    ("log", 'console.log("x")', ["qDebug("]), ("debug", 'console.debug("x")', ["qDebug("]), ("info", 'console.info("x")', ["qInfo("]),
+    ("warn", 'console.warn("x")', ["qWarning("]), ("error", 'console.error("x")', ["qCritical("]),
+    ("max", "a.done(Math.max(a.i, 1))", ["std::max"]), ("min", "a.done(Math.min(a.i, 1))", ["std::min"]),
+    ("fmod", "a.sayDouble(a.d % 2.0)", ["std::fmod("]),
+]
+FACILITY_SHAPES = [
+    ("straight", "{{ {P} }}"), ("early-return", "{{ if (a.b) return; {P} }}"), ("then-branch", "{{ if (a.b) {{ {P} }} }}"),
+    ("else-branch", "{{ if (a.b) {{ a.act() }} else {{ {P} }} }}"), ("else-after-return", "{{ if (a.b) {{ return }} else {{ {P} }} }}"),
+    ("switch-default", "{{ switch (a.i) {{ case 1: a.act(); break; default: {P} }} }}"),
+    ("after-switch-return", "{{ switch (a.i) {{ case 1: return; }} {P} }}"),
+    ("nested", "{{ if (a.b) {{ if (a.c) return; {P} }} }}"), ("function", "function() {{ if (a.b) return; {P} }}"),
+]
+
+
+def facility_docs():
+    """A handler whose only use of a facility that needs a system header sits in every position of a body with
+    branches; and two facilities in two different branches.  One document, one use: nothing else asks for the header."""
+    for sname, shape in FACILITY_SHAPES:
+        for fname, stmt, marks in FACILITIES:
+            yield (f"{sname}/{fname}", HEAD + f"    VObj {{\n        id: t\n        onFired: {shape.format(P=stmt)}\n    }}\n}}\n", marks)
+    for (f1, s1, m1), (f2, s2, m2) in itertools.permutations([FACILITIES[3], FACILITIES[5], FACILITIES[7]], 2):
+        yield (f"two-branches/{f1}+{f2}", HEAD + f"    VObj {{\n        id: t\n        onFired: {{ if (a.b) {{ {s1}; return }} {s2} }}\n    }}\n}}\n", m1 + m2)
+    # the same in a property binding (C16 owns bindings; one representative keeps the two in step)
+    yield ("binding/max", HEAD + "    VObj {\n        id: t\n        ri: { if (a.b) return 0; return Math.max(a.i, 1) }\n    }\n}\n", ["std::max"])
+
+
 def prepare_h5(vd, k, case, t):
     label, cls, binding, emit, chk = case
     src = HEAD + f"    {cls} {{\n        id: t\n        {binding}\n    }}\n}}\n"
@@ -462,6 +489,25 @@ def shard_work(shard, nshards, payload):
         res = harness.run_batch([p for _k, p in other], tag=f"c13o-{shard}")
         for kind, p in other:
             {"h2": judge_h2, "h3": judge_h3, "h5": judge_h5}[kind](t, p, res[p.pid])
+    if shard == 1 % nshards:
+        from checks import c16
+        for label, src, marks in facility_docs():
+            r = vd.job({"id": label, "source": src, "modes": ["generate"]})
+            t.inc("facility_documents")
+            g = r["modes"]["generate"]
+            if r.get("has_syntax_error"):
+                raise vc.MachineryError("document does not parse:\n" + src)
+            t.distinct.add(("facility", label))
+            if not vc.accepted(g):
+                t.violation("rejected-a-valid-handler:facility:" + label.split("/")[0], {"source": src, "diagnostics": g.get("diagnostics")})
+                continue
+            h = g["header"] or ""
+            for mk in marks:
+                if mk not in h:
+                    t.violation("handler:prescribed-call-missing:" + mk.strip("("), {"source": src, "program": label})
+            for clause, msg in c16.scan_header(h)[0]:
+                if clause.startswith("include:"):
+                    t.violation("handler:call-needs-a-header-that-is-not-included:" + clause[8:], {"source": src, "program": label})
     if shard == 0:
         for label, text in REJECTS:
             src = HEAD + f"    VObj {{\n        id: t\n        {text}\n    }}\n}}\n"
